@@ -445,6 +445,33 @@ pub fn boundary_packets() -> Vec<Vec<u8>> {
         }
         out.push(p);
     }
+    // names that start at offsets around 256 and 512 (pointer low byte 0x00 / 0xff, high bits set)
+    for at in [254usize, 255, 256, 257, 511, 512, 513, 768] {
+        for ty in [2u16, 5, 12, 15, 6, 1] {
+            let mut p = header(16, 0x8180, 1, 3, 0, 0);
+            question(&mut p, &[1, b'q', 0], ty);
+            // opaque padding record so that the next owner name starts exactly at `at`
+            let pad = at - (p.len() + 1 + 10);
+            rr(&mut p, &[0], 16, 1, &vec![b'p'; pad]);
+            assert_eq!(p.len(), at);
+            rr(&mut p, &[4, b'h', b'o', b's', b't', 3, b'l', b'a', b'n', 0], 1, 2, &[7, 7, 7, 7]);
+            let mut rd = vec![];
+            if ty == 15 {
+                rd.extend(&[0, 3]);
+            }
+            rd.extend(ptr(at));
+            if ty == 6 {
+                rd.extend(&[1, b'r']);
+                rd.extend(ptr(at + 5));
+                rd.extend(&[0u8; 20]);
+            }
+            if ty == 1 {
+                rd = vec![1, 2, 3, 4];
+            }
+            rr(&mut p, &ptr(at + 5), ty, 3, &rd);
+            out.push(p);
+        }
+    }
     // pointer peculiarities
     let base = {
         let mut p = header(4, 0x8000, 1, 1, 0, 0);
